@@ -28,7 +28,9 @@ DIAG_METHODS = [None, "symeig", "lanczos"]
 
 
 def lattice(tier):
-    base = [{}, {"max_cholesky_size": 0}]
+    # max_cholesky_size 2 / 3 / 5 sit between the sizes of Kronecker (block, ...) factors (2, 3) and of their product (6, 9): composite
+    # operators then mix the dense path of small components with the structured path of the whole
+    base = [{}, {"max_cholesky_size": 0}, {"max_cholesky_size": 3}, {"max_cholesky_size": 5}, {"max_cholesky_size": 2}]
     if tier == "thorough":
         base += [{"max_cholesky_size": 0, "max_root_decomposition_size": "n"}, {"max_cholesky_size": 0, "max_root_decomposition_size": "n-1"},
                  {"fast_root": False}, {"max_cholesky_size": 0, "fast_root": False}]
